@@ -30,9 +30,14 @@ class SymArray:
             return sp.Integer(0) if not s else [mk(s[1:]) for _ in range(int(s[0]))]
         return SymArray(mk(shape))
 
+    def _check(self, d, k):
+        if not isinstance(d, list) or not isinstance(k, int) or not (-len(d) <= k < len(d)):
+            raise Raised('IndexError', f'index {k} is out of bounds for axis with size {len(d) if isinstance(d, list) else 0}')
+
     def __getitem__(self, i):
         d = self.data
         for k in (i if isinstance(i, tuple) else (i,)):
+            self._check(d, k)
             d = d[k]
         return SymArray(d) if isinstance(d, list) else d
 
@@ -40,7 +45,9 @@ class SymArray:
         idx = i if isinstance(i, tuple) else (i,)
         d = self.data
         for k in idx[:-1]:
+            self._check(d, k)
             d = d[k]
+        self._check(d, idx[-1])
         d[idx[-1]] = v
 
     def tolist(self):
@@ -182,7 +189,7 @@ def param_values(cls_name, pname, index):
     if pname == 'index':
         return [index]
     if pname == 'dimension':
-        return [DIM]
+        return [DIM, None]          # None: the dimension is inferred lazily from the first argument a method sees (every method is called on a fresh object)
     if pname in ('exponent',):
         n = sp.Symbol('n', integer=True, nonnegative=True)
         return [0, 1, 2, 3, 5, n + 2]
@@ -266,7 +273,7 @@ def check(repo, tier):
             value_lists = [param_values(cname, p, index) for p in params]
             for combo in itertools.product(*value_lists):
                 kwargs = dict(zip(params, combo))
-                label = f"{cname}({', '.join(f'{k}={v}' for k, v in kwargs.items() if k not in ('dimension', 'knots', 'coeff'))})"
+                label = f"{cname}({', '.join(f'{k}={v}' for k, v in kwargs.items() if k not in ('knots', 'coeff') and not (k == 'dimension' and v is not None))})"
 
                 def fresh(array_mode=False):
                     dom = C14Domain(array_mode)
@@ -345,7 +352,10 @@ def check_one(run, repo, cref, cname, label, index, x, call_method):
                         if r.exc_type == 'NotImplementedError':
                             exempt.append(f'{cname}.partial (NotImplementedError)')
                             break
-                        raise AnalysisError(f'{label}.partial raised {r}')
+                        fnp = cref.find('partial')
+                        run.oblige('D1', (label, f'partial d={d}', 'raises'), False)
+                        run.add(Finding('C14', 'D1', f'{(r.fn or fnp).mod}::{(r.fn or fnp).cls}.{(r.fn or fnp).name}', f'{cname}.partial raises {r.exc_type}', f'{label}.partial(t, {d}) raises {r.exc_type}: {r.message}', (r.fn or fnp).file, getattr(r.node, 'lineno', None)))
+                        break
                     want = sp.diff(f, x[d])
                     z = residual_zero(p - want)
                     if z is None:
@@ -366,7 +376,11 @@ def check_one(run, repo, cref, cname, label, index, x, call_method):
                                 exempt.append(f'{cname}.partial2 (NotImplementedError)')
                                 stop = True
                                 break
-                            raise AnalysisError(f'{label}.partial2 raised {r}')
+                            fnp = cref.find('partial2')
+                            run.oblige('D1', (label, f'partial2 d={d1},{d2}', 'raises'), False)
+                            run.add(Finding('C14', 'D1', f'{(r.fn or fnp).mod}::{(r.fn or fnp).cls}.{(r.fn or fnp).name}', f'{cname}.partial2 raises {r.exc_type}', f'{label}.partial2(t, {d1}, {d2}) raises {r.exc_type}: {r.message}', (r.fn or fnp).file, getattr(r.node, 'lineno', None)))
+                            stop = True
+                            break
                         want = sp.diff(f, x[d1], x[d2])
                         z = residual_zero(p - want)
                         if z is None:
@@ -387,7 +401,10 @@ def check_one(run, repo, cref, cname, label, index, x, call_method):
                         if r.exc_type == 'NotImplementedError':
                             exempt.append(f'{cname}.{meth} (NotImplementedError)')
                             continue
-                        raise AnalysisError(f'{label}.{meth} raised {r}')
+                        fnp = cref.find(meth)
+                        run.oblige('D2', (label, meth, 'raises'), False)
+                        run.add(Finding('C14', 'D2', f'{(r.fn or fnp).mod}::{(r.fn or fnp).cls}.{(r.fn or fnp).name}', f'{cname}.{meth} raises {r.exc_type}', f'{label}.{meth}(t) raises {r.exc_type}: {r.message} (first method called on a fresh object)', (r.fn or fnp).file, getattr(r.node, 'lineno', None)))
+                        continue
                     got = g.tolist() if isinstance(g, SymArray) else g
                     flat_g = list(itertools.chain.from_iterable(got)) if meth == 'hessian' else list(got)
                     flat_w = list(itertools.chain.from_iterable(want)) if meth == 'hessian' else list(want)
